@@ -136,6 +136,12 @@ func (a *AggchainProverFlow) CheckInitialStatus(ctx context.Context) error {
 		return fmt.Errorf("aggchainProverFlow - error waiting for syncer to catch up: %w", err)
 	}
 
+	if lastSentCertificate != nil && lastSentCertificate.ToBlock >= startL2Block {
+		// the last sent certificate already reaches the start block, so there are no blocks
+		// between them that could have been left out
+		return nil
+	}
+
 	if err := a.baseFlow.VerifyBlockRangeGaps(
 		ctx, lastSentCertificate, startL2Block, startL2Block); err != nil {
 		return fmt.Errorf("aggchainProverFlow - error verifying block range gaps on startup. Err: %w", err)
